@@ -54,9 +54,8 @@ def matrix_case(r: int, c: int, rot: int, immutable: bool) -> tuple[str, str, st
             except parse_latex.Unread as ex:
                 return key, "matrix", f"entry {got[i][j]!r} of {tex!r} cannot be read: {ex}"
             for pt in POINTS:
-                env = {t: mpmath.mpf(sp.Rational(pt[s_.display_name]).p) / sp.Rational(pt[
-                    s_.display_name]).q for t, s_ in tokens.items()}
-                rep = {s_: sp.Rational(pt[s_.display_name]) for s_ in syms}
+                env = {t: printspace.point_mp(pt[s_.display_name]) for t, s_ in tokens.items()}
+                rep = {s_: printspace.point_value(pt[s_.display_name]) for s_ in syms}
                 want = values.mpc(sp.N(e.xreplace(rep), 40))
                 if not matches(parse_latex.evaluate_all(tree, env), want, 1e-25):
                     return key, "matrix", (f"{r} x {c} matrix rendered as {tex!r}: entry ({i}, {j}) "
@@ -90,9 +89,8 @@ def canonical_case(d: Any) -> Optional[tuple[str, str, str]]:
         return key, "unread", f"UNREAD {tex!r}: {ex}"
     tol = 1e-11 if e.atoms(sp.Float) else 1e-25
     for pt in POINTS:
-        env = {t: mpmath.mpf(sp.Rational(pt[s.display_name]).p) / sp.Rational(pt[s.display_name]).q
-            for t, s in tokens.items()}
-        rep = {s: sp.Rational(pt[s.display_name]) for s in syms}
+        env = {t: printspace.point_mp(pt[s.display_name]) for t, s in tokens.items()}
+        rep = {s: printspace.point_value(pt[s.display_name]) for s in syms}
         try:
             want = values.mpc(sp.N(e.xreplace(rep), 40))
             got = parse_latex.evaluate_all(tree, env)
